@@ -173,6 +173,8 @@ def run_in(spec, res, d, h):
             res.viol('constructor-malformed', '; '.join(bad[:5]))
         return
     trace = []
+    results = []
+    source = f
 
     def on_step(phase, st, pre):
         if phase == 'before':
@@ -220,6 +222,8 @@ def run_in(spec, res, d, h):
                 bad.append('dimension %s renamed to %s: length changed'
                            % (o, n))
         res.ev(dg, len(list(out.variables.keys())) > 0)
+        if not bad and st.in_domain and st.op != 'fn_pncexpr':
+            results.append((st.desc, out))
         if bad:
             # a malformed file is not a valid input for the next operation:
             # the program ends here (one defect, one report)
@@ -234,3 +238,21 @@ def run_in(spec, res, d, h):
         allowed = list(ops.CORE_OPS) + list(ops.FN_OPS) * 2
     ops.run_program(f, spec['prog_seed'], spec['nops'], allowed=allowed,
                     on_step=on_step)
+    if results and ops.on_disk(source) and hasattr(source, 'close'):
+        # the files obtained from a file on disk are files of their own:
+        # they stay well-formed when that file is closed
+        ok0 = [(dsc, o) for dsc, o in results if not snapshot.wellformed(o)]
+        try:
+            source.close()
+        except Exception:
+            return
+        res.hook('wellformed.eval', len(ok0))
+        for dsc, o in ok0:
+            bad = snapshot.wellformed(o)
+            if bad:
+                res.viol('malformed-after-source-closed:' + dsc.split('(')[0],
+                         'after closing the source file (opened from disk) '
+                         'the file %s returned earlier is malformed: %s '
+                         '(program %s)' % (dsc, '; '.join(bad[:4]), trace),
+                         op=dsc.split('(')[0], problems=bad[:8])
+                break
